@@ -51,6 +51,8 @@ MustBePublic == { <<8*256+8, 8*256+8>>, <<1*256+1, 1*256+1>>, <<9*256+9, 9*256+9
                   <<9760,254,0,0,0,0,0,254>> }            \* 2620:fe::fe
 ReservedByName(a) == \E b \in MustBeReserved : Contains(b, a)
 NetTouchesNamed(n) == \E b \in MustBeReserved : NetsIntersect(n, b)
+\* what network P keeps of the named blocks when its sub-network E is excluded (nested prefixes: P and a block share the longer one)
+StillTouches(P, E) == \E b \in MustBeReserved : NetsIntersect(P, b) /\ ~NetContainsNet(E, IF NetContainsNet(P, b) THEN b ELSE P)
 \* sanity of the oracle itself (checked by TLC in MC_IPReserved)
 OracleSane == /\ \A a \in MustBePublic : ~ReservedByName(a)
               /\ \A b \in MustBeReserved : Contains(b, FirstAddr(b)) /\ Contains(b, LastAddr(b)) /\ ReservedByName(LastAddr(b))
@@ -78,8 +80,12 @@ NetAddrReasons(e) == IF Contains([base |-> e.base, len |-> e.len], e.g) /\ e.add
                        THEN {"network-contains-reserved-address-but-does-not-intersect"} ELSE {}
 \* the lints: Error exactly when the code's own predicate holds of what the certificate carries (and the named expectations on top)
 LintReasons(e) ==
-   (IF e.status \in {3, 6} /\ ((e.status = 6) # e.util) THEN {"lint-disagrees-with-address-test"} ELSE {}) \cup
+   (IF e.what # "net-excl" /\ e.status \in {3, 6} /\ ((e.status = 6) # e.util) THEN {"lint-disagrees-with-address-test"} ELSE {}) \cup
    (IF e.what = "addr" /\ ReservedByName(e.g) /\ e.status = 3 THEN {"lint-missed-special-purpose-address"} ELSE {}) \cup
    (IF e.what = "addr" /\ e.g \in MustBePublic /\ e.status = 6 THEN {"lint-flagged-public-address"} ELSE {}) \cup
-   (IF e.what = "net" /\ e.status = 3 /\ NetTouchesNamed(Prefix(e.g, e.len)) THEN {"lint-missed-network-containing-special-purpose-block"} ELSE {})
+   (IF e.what = "net" /\ e.status = 3 /\ NetTouchesNamed(Prefix(e.g, e.len)) THEN {"lint-missed-network-containing-special-purpose-block"} ELSE {}) \cup
+   \* a permitted network with a strictly smaller network at its base excluded: it still contains reserved addresses unless the
+   \* excluded part contains everything the permitted network shares with the block
+   (IF e.what = "net-excl" /\ e.status = 3 /\ StillTouches(Prefix(e.g, e.len), Prefix(e.g, e.xlen))
+      THEN {"lint-missed-reserved-addresses-left-after-an-exclusion"} ELSE {})
 =============================================================================
